@@ -280,7 +280,7 @@ CONSTANTS
   FoldSellLines = {'TRUE' if design else 'FALSE'}
   MinLines = {minlines}
   MaxLines = {maxlines}
-  AlphabetSel <- {alpha}
+  AlphabetSel {'=' if alpha.startswith('{') else '<-'} {alpha}
 INVARIANTS LinesRefine LinesRefuseUnabsorbable LBookkeeping {'DesignLegsIdentical' if design else 'EmitLines'}
 CHECK_DEADLOCK FALSE
 '''
@@ -290,7 +290,10 @@ LINES_FAMILIES = {
     'lines_q': dict(maxlines=3, alpha='MC_AlphaAll'),       # 4 369 ordered selections of <= 3 of 17 lines
     'lines4_q': dict(maxlines=4, alpha='MC_AlphaCore'),     # <= 4 of the 11 core lines (two fills, two sale lines, split, both events)
     'lines_fills_q': dict(minlines=6, maxlines=6, alpha='MC_AlphaFills'),   # separated fills on two days: all 720 orders
-    'lines_splits_q': dict(minlines=4, maxlines=5, alpha='MC_AlphaSplits'),  # two reorganisations on one day, the other security's split
+    'lines_splits_q': dict(minlines=4, maxlines=5, alpha='MC_AlphaSplits'),
+    # the pre-pass with two SELL lines on a purchase day: a holding, a purchase and two sale lines on day 2, a purchase and a
+    # capital return on day 3 -- all 720 orders (the sale lines adjacent or not, the return before or after its day's purchase)
+    'lines_prepass_q': dict(minlines=6, maxlines=6, alpha='{1, 2, 6, 7, 19, 15}'),  # two reorganisations on one day, the other security's split
     # seeded random FILES of 8-14 lines (three securities, eight day slots, shuffled line order): beyond the exhaustive bound;
     # TLC runs Lines on each, checks the refinement onto Cgt and hands its outcome to the replay
     'lines_files_q': dict(files=240),
